@@ -467,12 +467,13 @@ def c03(prop, tier):
 
 
 def c19(prop, tier):
-    jobs = [Job("topsort", "./internal/utils", ["prelude_sym.go", "c19_topsort.go"], {"PKGNAME": "utils"})]
+    jobs = [Job("topsort", "./internal/utils", ["prelude_sym.go", "c19_topsort.go"], {"PKGNAME": "utils"}),
+            Job("export", "./std/gkr", ["prelude_sym.go", "c19_export.go"], {"PKGNAME": "gkr"})]
     return run_property(prop, tier, jobs,
-                        title="C19 (dependency bookkeeping only): TopologicalSort / InvertPermutation behind GkrInfo.Compile for every acyclic dependency structure with 1..4 wires and 0..2 symbolic inputs per wire.",
+                        title="C19 (dependency and instance bookkeeping): TopologicalSort / InvertPermutation behind GkrInfo.Compile for every acyclic dependency structure with 1..4 wires and 0..2 symbolic inputs per wire; GkrInfo.Compile + assignment.Permute + Solution.Export and the whole API.Import/Series/Solve/Export flow on a fake parent API for 4 instances and 0..2 dependencies with symbolic (output instance, input instance) pairs: exported values are attributed to the original instances, a dependent input is the named output, sources are solved first, the caller's slices are left alone.",
                         design_ref="DESIGN.md §3 C19",
                         assumptions=["acyclic input (stated as the transitive closure not reaching itself)"],
-                        outside=["the in-circuit GKR verifier (sum-check with hash-derived challenges over a 254-bit field)", "solving / proving hints", "GkrInfo.Compile's instance permutation"])
+                        outside=["the in-circuit GKR verifier (sum-check with hash-derived challenges over a 254-bit field)", "solving / proving hints (the hint is a marker-returning fake)", "more than 4 instances / 2 dependencies / one dependent wire", "wire permutations other than the identity (API-built circuits are already sorted)"])
 
 
 def c18(prop, tier):
